@@ -282,10 +282,28 @@ def judge(case, im, mo):
 S = common.Stream("module_pipe", impl, line, judge, chunk=16, nontrivial=lambda c: any(cc[1]["k"] != "sig" for i in c["insts"] for cc in i["conns"]))
 
 
+def corpus():
+    """fixed cases: every integer index around both ends of a four-bit bus on a one-bit port (the first index past the top, the first
+    below the bottom, twice the width below — seeds C06-r2-2, C06-r3-3, C06-r4-2), and the in-range ones next to them"""
+    out = []
+    for k, i in enumerate([4, -5, -8, 5, 3, -4, 0, -1]):
+        out.append({"name": f"MPC{k}", "signals": [("bus", 4), ("g", 1)], "ports": [], "targets": [{"kind": "ext", "name": f"EC{k}", "ports": [("p", 1), ("n", 1)]}],
+                    "insts": [{"n": "i0", "t": 0, "conns": [["p", {"k": "slice", "p": {"k": "sig", "n": "bus", "w": 4}, "i": {"i": i}}], ["n", {"k": "sig", "n": "g", "w": 1}]]}],
+                    "fault": "index" if i in (4, -5, -8, 5) else None})
+    # … and through one level of nesting: the index past the top of a three-bit run of the bus, of a concatenation
+    for k, parent in enumerate([{"k": "slice", "p": {"k": "sig", "n": "bus", "w": 4}, "i": {"s": 0, "e": 3, "st": None}},
+                                {"k": "concat", "ps": [{"k": "sig", "n": "g", "w": 1}, {"k": "slice", "p": {"k": "sig", "n": "bus", "w": 4}, "i": {"s": 1, "e": 3, "st": None}}]}]):
+        for i in (3, -4):
+            out.append({"name": f"MPN{k}{i + 4}", "signals": [("bus", 4), ("g", 1)], "ports": [], "targets": [{"kind": "ext", "name": f"EN{k}{i + 4}", "ports": [("p", 1), ("n", 1)]}],
+                        "insts": [{"n": "i0", "t": 0, "conns": [["p", {"k": "slice", "p": parent, "i": {"i": i}}], ["n", {"k": "sig", "n": "g", "w": 1}]]}],
+                        "fault": "index"})
+    return out
+
+
 def run(ctx, n=None):
     rng = ctx.rng
     n = n or (250 if ctx.quick else 5000)
-    cases = [gen_case(rng, k) for k in range(n)]
+    cases = corpus() + [gen_case(rng, k) for k in range(n)]
     S.run(ctx, cases)
     # the same designs as a whole (`pipelineDesign`: children first, each judged against what the package holds so far; design_pipeline_wf)
     SD.run(ctx, cases[: max(60, n // 3)])
